@@ -3,6 +3,7 @@ package fsx
 import (
 	"encoding/json"
 	"fmt"
+	"os"
 	"runtime"
 	"strings"
 	"sync"
@@ -207,9 +208,49 @@ type Pool struct {
 }
 
 type slot struct {
-	start int64
-	label atomic.Value
+	start    int64
+	label    atomic.Value
+	gid      atomic.Value // "goroutine N " of the worker
+	extended int          // how often the watchdog has granted more time (under p.mu)
 }
+
+// goroutineHeader returns "goroutine N " of the calling goroutine.
+func goroutineHeader() string {
+	buf := make([]byte, 64)
+	n := runtime.Stack(buf, false)
+	f := strings.Fields(string(buf[:n]))
+	if len(f) >= 2 {
+		return "goroutine " + f[1] + " "
+	}
+	return ""
+}
+
+// stuckInRepo inspects the dump for the worker's goroutine: a call counts as hung only when that goroutine is
+// BLOCKED (on a lock, a channel, a wait group ...) beneath a frame of the library under test.  A worker that is
+// running, in a system call or inside the harness's own set-up / clean-up is slow (a loaded machine), not hung.
+func stuckInRepo(dump, gid string) bool {
+	for _, block := range strings.Split(dump, "\n\n") {
+		if !strings.HasPrefix(block, gid) {
+			continue
+		}
+		head := block
+		if i := strings.Index(block, "\n"); i >= 0 {
+			head = block[:i]
+		}
+		busy := false
+		for _, st := range []string{"[running", "[runnable", "[syscall", "[IO wait", "[sleep"} {
+			if strings.Contains(head, st) {
+				busy = true
+			}
+		}
+		return !busy && strings.Contains(block, "github.com/goatcms/goatcore/")
+	}
+	return false
+}
+
+// MaxExtensions: a slow (not blocked) worker is granted this many further HangTimeouts before it is reported anyway
+// (a busy loop inside the library never ends either).
+const MaxExtensions = 12
 
 // NewPool starts n workers.
 func NewPool(n int, onHang func(label, dump string)) *Pool {
@@ -234,6 +275,10 @@ func (p *Pool) spawn() {
 			if atomic.LoadInt32(&p.hangs) >= MaxHangs {
 				continue
 			}
+			sl.gid.Store(goroutineHeader())
+			p.mu.Lock()
+			sl.extended = 0
+			p.mu.Unlock()
 			atomic.StoreInt64(&sl.start, time.Now().UnixNano())
 			job()
 			atomic.StoreInt64(&sl.start, 0)
@@ -256,11 +301,23 @@ func (p *Pool) watch() {
 		case <-time.After(500 * time.Millisecond):
 		}
 		now := time.Now().UnixNano()
+		var dump string
 		p.mu.Lock()
 		var hung []int
 		for id, sl := range p.slots {
 			st := atomic.LoadInt64(&sl.start)
 			if st != 0 && now-st > int64(HangTimeout) {
+				if dump == "" {
+					buf := make([]byte, 1<<18)
+					dump = string(buf[:runtime.Stack(buf, true)])
+				}
+				gid, _ := sl.gid.Load().(string)
+				if !stuckInRepo(dump, gid) && sl.extended < MaxExtensions {
+					sl.extended++
+					atomic.CompareAndSwapInt64(&sl.start, st, now)
+					fmt.Fprintf(os.Stderr, "watchdog: worker %sis slow but not blocked in goatcore (extension %d)\n", gid, sl.extended)
+					continue
+				}
 				hung = append(hung, id)
 			}
 		}
@@ -270,9 +327,7 @@ func (p *Pool) watch() {
 		p.mu.Unlock()
 		for range hung {
 			atomic.AddInt32(&p.hangs, 1)
-			buf := make([]byte, 1<<17)
-			n := runtime.Stack(buf, true)
-			p.onHang("", string(buf[:n]))
+			p.onHang("", dump)
 			p.wg.Done() // the hung worker never returns
 			p.spawn()
 		}
